@@ -315,7 +315,7 @@ theorem executed_loops_are_the_listed_visits (le : LeafKind → List Nat → Lis
     eqFields le m fs LayoutBuilder.new src dst =
       (eqRecordVisits fs).all (fun v =>
         match layoutOf v.2.2 with
-        | some l => if l.get_size = 0 then true else eqTy le m v.2.2 (src + v.2.1) (dst + v.2.1)
+        | some _ => if noIrValue v.2.2 then true else eqTy le m v.2.2 (src + v.2.1) (dst + v.2.1)
         | none => true) :=
   ⟨cloneFields_eq_visits fs 0 _ src dst m, eqFields_eq_visits le m fs 0 _ src dst⟩
 
@@ -378,7 +378,8 @@ example :
     whether `Lowerer::location` hands out a variable or a pointer, and whether a
     value is moved by `memcpy` or by a register write) and `lower_type` agree:
     a type is by-reference iff it is lowered to `Pointer`; a by-value type is
-    lowered to an integer / float scalar, or to nothing when it is zero-sized. -/
+    lowered to an integer / float scalar, or to nothing when it is zero-sized.
+    Both functions are the GENERATED ones (`RotoV.Gen.LayoutDecide`). -/
 theorem reference_types_are_pointers (t : Ty) :
     (isReferenceType t = some true ↔ lowerType t = .ok (some .pointer)) ∧
     (isReferenceType t = some false →
@@ -472,5 +473,75 @@ example :
     let t := Ty.record (.cons .unit (.cons (.leaf .string 16 8) .nil))
     isReferenceType t = some true ∧ lowerType t = .ok (some .pointer) ∧
     isReferenceType .unit = some false ∧ lowerType .unit = .ok none := ⟨rfl, rfl, rfl, rfl⟩
+
+/-- **`registered_types_are_references`** — a registered type is a reference
+    type and is lowered to `Pointer` WHATEVER its size (the Rust side always
+    passes `*mut T` for `Val<T>`), over the generated `is_reference_type` /
+    `lower_type`; every other zero-sized inhabited type has no IR value and is
+    not a reference type. -/
+theorem registered_types_are_references (t : Ty) :
+    (t.kind = .runtime → isReferenceType t = some true ∧ lowerType t = .ok (some .pointer)) ∧
+    (t.kind ≠ .runtime → ∀ l, layoutOf t = some l → l.get_size = 0 →
+      isReferenceType t = some false ∧ lowerType t = .ok none) := by
+  constructor
+  · intro hk
+    have h1 : isReferenceType t = some true := by rw [isReferenceType_eq]; simp [hk]
+    exact ⟨h1, (reference_iff_pointer t).1.1 h1⟩
+  · intro hk l hl hz
+    have hn : noIrValue t = true := by simp [noIrValue, sizeZero, hl, hz, hk]
+    constructor
+    · rw [isReferenceType_eq]; simp [hk, hl, hz]
+    · rw [lowerType_eq]; simp [hn]
+
+example : (Ty.leaf .rtCopy 0 1).kind = .runtime ∧ (Ty.leaf .rtClone 24 8).kind = .runtime ∧
+    Ty.unit.kind ≠ .runtime ∧ layoutOf .unit = some { size := 0, align := 1 } := by decide
+
+/-- **`zero_sized_registered_component_ops`** — what the generated functions
+    do with a zero-sized registered component at offset `off`, as written:
+    a `Clone` one is cloned and dropped through its registered functions
+    (`needs_clone` does not look at the size), a `Copy` one is neither copied
+    (a 0-byte `memcpy` is not emitted) nor dropped, and BOTH are compared
+    through the registered eq function (the component is a reference type, so
+    `call_eq_by_ptr` goes to `call_eq_of` with the two addresses). -/
+theorem zero_sized_registered_component_ops (off a : Nat) :
+    fieldCloneOps off (.leaf .rtClone 0 a) = .ok [.clone off] ∧
+    fieldDropOps off (.leaf .rtClone 0 a) = .ok [.drop off] ∧
+    fieldEqOps true off (.leaf .rtClone 0 a) = .ok [.eq off] ∧
+    fieldCloneOps off (.leaf .rtCopy 0 a) = .ok [] ∧
+    fieldDropOps off (.leaf .rtCopy 0 a) = .ok [] ∧
+    fieldEqOps true off (.leaf .rtCopy 0 a) = .ok [.eq off] := by
+  refine ⟨?_, ?_, ?_, ?_, ?_, ?_⟩ <;>
+    simp [fieldCloneOps, fieldDropOps, fieldEqOps, eqOfOps, needsDrop, needsClone, hasRuntimeClone, hasRuntimeEq,
+      isReferenceType_eq, lowerType_eq, noIrValue, Ty.kind, layoutOf, Layout.new, Layout.get_size]
+
+/-- non-vacuity: the whole functions generated for `{z: Z, x: u32}` with a
+    zero-sized registered `Clone` type `Z` -/
+example :
+    let t := Ty.record (.cons (.leaf .rtClone 0 1) (.cons (.leaf .int 4 4) .nil))
+    cloneOps t = .ok [.clone 0, .copy 0 4] ∧ dropOps t = .ok [.drop 0] ∧
+    eqOps true t = .ok [.eq 0, .read .left 0 4, .read .right 0 4, .icmp, .ret true, .ret false] :=
+  ⟨rfl, rfl, rfl⟩
+
+/-- **`zero_sized_aggregate_of_registered_has_no_storage`** (refutation on the
+    unchanged tree, finding `C02-zero-sized-aggregate-of-registered`) — for
+    `record R0 { z: Z }` with a zero-sized registered `Clone` type `Z`: `R0` is
+    zero-sized and not a registered type, so it is no reference type and has
+    no IR value — a variable of type `R0` is not declared at all — while its
+    component `z` IS a reference type that `Lowerer::location` places behind
+    the pointer `r + 0`, and `R0` needs its generated clone / drop function
+    to run. Building, copying, passing or comparing such a value makes the
+    lowerer emit `r + 0` for a variable that does not exist: the code
+    generator stops with "did not find Var" (replayed by the harness battery
+    `zst`, keys `zst0agg:…:ice-did-not-find-var`). -/
+theorem zero_sized_aggregate_of_registered_has_no_storage :
+    let z := Ty.leaf .rtClone 0 1
+    let r0 := Ty.record (.cons z .nil)
+    layoutOf r0 = some { size := 0, align := 1 } ∧
+    isReferenceType r0 = some false ∧ lowerType r0 = .ok none ∧
+    needsClone r0 = true ∧ needsDrop r0 = true ∧
+    locate r0 [.field 0] 0 = .ok (some (0, z)) ∧
+    isReferenceType z = some true ∧ lowerType z = .ok (some .pointer) ∧
+    cloneOps r0 = .ok [.clone 0] ∧ dropOps r0 = .ok [.drop 0] :=
+  ⟨rfl, rfl, rfl, rfl, rfl, rfl, rfl, rfl, rfl, rfl⟩
 
 end RotoV.C02
